@@ -386,3 +386,150 @@ pub fn gen_answer_heavy(r: &mut Rng, region: RegionId) -> Vec<MacSpec> {
     }
     v
 }
+
+// ---------------------------------------------------------------------------------------------
+// Bounded-depth enumeration over an event alphabet ("exhaustive over an event alphabet", C04 / C06)
+// ---------------------------------------------------------------------------------------------
+
+/// Number of letters of the event alphabet (one application-level operation each, see `enum_letter`).
+pub const ENUM_LETTERS: u64 = 15;
+/// Starting uplink counters of the ABP configurations: the third send of a depth-3 history crosses the boundary.
+pub const ENUM_UP0: [u32; 3] = [0, 0xFFFE, 0xFFFF_FFFD];
+/// Configurations: 9 regions x 3 front-ends x (OTAA | ABP at three starting counters).
+pub const ENUM_CFGS: u64 = 9 * 3 * 4;
+
+/// Number of enumerated cases of exactly depth `d`.
+pub fn enum_block(d: u32) -> u64 {
+    ENUM_CFGS * ENUM_LETTERS.pow(d)
+}
+
+/// Number of enumerated cases of depth 1..=d.
+pub fn enum_total(d: u32) -> u64 {
+    (1..=d).map(enum_block).sum()
+}
+
+/// The largest depth whose histories are all among the first `n` enumerated cases.
+pub fn enum_complete_depth(n: u64) -> u32 {
+    let mut d = 0;
+    while d < 8 && enum_total(d + 1) <= n {
+        d += 1;
+    }
+    d
+}
+
+fn enum_letter(letter: u64, cfg: &WorldCfg) -> Op {
+    let data = |rel: i64, confirmed: bool, ack: bool| {
+        let mut d = DataSpec::plain(rel);
+        d.confirmed = confirmed;
+        d.ack = ack;
+        d.body = Body::Data { port: 5, len: 2 };
+        FrameSpec::Data(d)
+    };
+    let send = |confirmed: bool, txn: Txn| Op::Send { port: 7, len: 3, confirmed, txn };
+    let mut t = Txn::default();
+    match letter {
+        0 => send(false, t),
+        1 => send(true, t),
+        2 => {
+            t.rx1.push(data(1, false, false));
+            send(false, t)
+        }
+        3 => {
+            t.rx2.push(data(1, false, false));
+            send(false, t)
+        }
+        4 => {
+            t.rx1.push(data(1, false, true));
+            send(true, t)
+        }
+        5 => {
+            t.rx1.push(data(1, true, false));
+            send(false, t)
+        }
+        6 => {
+            let mut d = DataSpec::plain(1);
+            d.tamper = Tamper::WrongNwkKey;
+            d.body = Body::Data { port: 5, len: 2 };
+            t.rx1.push(FrameSpec::Data(d));
+            send(false, t)
+        }
+        7 => {
+            t.rx1.push(FrameSpec::Replay(0));
+            send(false, t)
+        }
+        8 => {
+            let mut d = DataSpec::plain(1);
+            d.fopts = vec![MacSpec::DevStatus, MacSpec::RxTimingSetup { del: 2 }];
+            t.rx1.push(FrameSpec::Data(d));
+            send(false, t)
+        }
+        9 => {
+            if cfg.frontend == Frontend::AsyncC {
+                t.gap1.push(data(1, false, false));
+            } else {
+                t.rx2.push(FrameSpec::Raw(vec![0x60, 1, 2, 3, 4, 0, 9, 0, 1, 0xAA, 0xBB, 0xCC, 0xDD]));
+            }
+            send(false, t)
+        }
+        10 => {
+            if cfg.frontend == Frontend::AsyncC {
+                Op::Listen { frames: vec![data(1, true, false)], fault: None }
+            } else {
+                t.fault = Some(Fault { pos: 2, extra: 0 });
+                send(false, t)
+            }
+        }
+        11 => {
+            // settings equal to the regional defaults (the MAC configuration is not part of a persisted session)
+            let ja = JaSpec { join_nonce: 0x01_0203, net_id: 0x13, devaddr: 0x2601_1234, dl_settings: rr::rx2_default(cfg.region).1, rx_delay: 1, cflist: None, tamper: Tamper::None };
+            t.rx1.push(FrameSpec::JoinAccept(ja));
+            Op::Join(t)
+        }
+        12 => Op::Join(t),
+        13 => {
+            t.fault = Some(Fault { pos: 0, extra: 0 });
+            send(false, t)
+        }
+        _ => Op::SaveRestore,
+    }
+}
+
+/// The `index`-th case of the enumeration: all histories of depth 1 over the alphabet in every configuration, then all
+/// of depth 2, ... up to `max_depth`. `None` beyond that.
+pub fn enum_case(index: u64, max_depth: u32) -> Option<MacCase> {
+    let mut i = index;
+    let mut depth = 1;
+    loop {
+        if depth > max_depth {
+            return None;
+        }
+        let b = enum_block(depth);
+        if i < b {
+            break;
+        }
+        i -= b;
+        depth += 1;
+    }
+    let c = i % ENUM_CFGS;
+    let mut seq = i / ENUM_CFGS;
+    let region = ALL_REGIONS[(c % 9) as usize];
+    let frontend = [Frontend::Nb, Frontend::Async, Frontend::AsyncC][((c / 9) % 3) as usize];
+    let act = c / 27;
+    let mut cfg = WorldCfg::simple(region, frontend);
+    cfg.otaa = act == 0;
+    if act > 0 {
+        cfg.fcnt_up0 = ENUM_UP0[(act - 1) as usize];
+    }
+    cfg.key_seed = simcore::mix(0x454e_554d, "enum-key", c);
+    cfg.dev_seed = simcore::mix(0x454e_554d, "enum-dev", index);
+    let mut ops = Vec::new();
+    if cfg.otaa {
+        // an OTAA device starts its life with a join; the enumerated history follows
+        ops.push(enum_letter(11, &cfg));
+    }
+    for _ in 0..depth {
+        ops.push(enum_letter(seq % ENUM_LETTERS, &cfg));
+        seq /= ENUM_LETTERS;
+    }
+    Some(MacCase { cfg, ops, knob: 0 })
+}
